@@ -33,6 +33,9 @@ UNITS2 = [
     ("{0}CC(=O)O{1}", "glycolide"),
     ("{0}C(C)C{1}", "propylene"),
     ("{0}CS{1}", "thioether"),
+    ("{0}C=C{1}", "vinylene"),  # the two attachment atoms are joined by a double bond
+    ("{0}c1ccccc1{1}", "ortho_phenylene"),  # ... by an aromatic ring-closure bond
+    ("{0}C#C{1}", "ethynylene"),
 ]
 # shapes that trigger the two known token-parser defects on the pinned tree
 UNITS2_BRANCHY = [
